@@ -142,11 +142,11 @@ Qed.
 
 Lemma continue_auth_disc w n now r k : nowrites k -> disciplined n k (continue_auth w n now r).
 Proof.
-  intros NW. unfold continue_auth. cbn. split; [exact I|]. intros rp; destruct rp; try exact I.
+  intros NW. unfold continue_auth. break_goal; [exact I|]. cbn. split; [exact I|]. intros rp; destruct rp; try exact I.
   break_goal; [exact I|].
   apply disciplined_bind.
   - apply authenticate_disc; [apply stable_nowrites; cbn; auto|apply asess_ok_seen; cbn; auto].
-  - intros k' [o|e]; [exact I|]. apply disc_nosave. apply nosave_bind; [apply get_client_nosave|]. intros [c|]; exact I.
+  - intros k' [o|e]; [exact I|]. apply disc_nosave. apply nosave_bind; [apply get_client_nosave|]. intros [c|]; cbn; auto.
 Qed.
 
 Lemma push_auth_disc w n now r k : nowrites k -> disciplined n k (push_auth w n now r).
